@@ -575,6 +575,21 @@ func (g *Gen) Fill(v reflect.Value, p Params, depth int) {
 				}
 				// optional components deep inside a value are left out of random values (size); the full value of a type has them at every
 				// depth (an OPTIONAL ten levels down, such as backupAMFName in a served GUAMI item, is a component like any other)
+				if empty && g.BadProb > 0 && !g.Violated && g.R.Float64() < g.BadProb*4 && base.NumField() == 1 && base.Field(0).Type.Kind() == reflect.Slice {
+					// a deliberate violation: an extension container whose IE set is empty is given an item all the same - an extension
+					// field without a value (there is none it could hold); the encoder has to refuse it
+					c := reflect.New(base).Elem()
+					c.Field(0).Set(reflect.MakeSlice(base.Field(0).Type, 1, 1))
+					if ft.Kind() == reflect.Ptr {
+						pc := reflect.New(base)
+						pc.Elem().Set(c)
+						v.Field(i).Set(pc)
+					} else {
+						v.Field(i).Set(c)
+					}
+					g.Violated = true
+					continue
+				}
 				if empty || skip || (depth > 8 && g.Full != 1) || depth > 18 {
 					continue
 				}
